@@ -1,91 +1,10 @@
 import SafeNet.Proofs.StoreHistory
 /-!
-The persisted payment counter: when the metrics-flush tasks complete in the order they were spawned
-(`FlushFifo`), the file holds the current count as soon as no flush is pending — in every reachable state.
+The persisted payment counter. `flush_historic_quoting_metrics` writes the metrics file in place (regenerated flag
+`flushSynchronous`; `payment_eq`, `restart_hist`), so in every reachable state no flush is pending and the file holds
+the current count — whatever the completion order of the other tasks.
 -/
 namespace SafeNet.Store
-
-/-- pending flush tasks as (id, count to persist), in spawn order -/
-def flushVals (ts : List (Nat × Task)) : List (Nat × Nat) :=
-  ts.filterMap (fun t => match t.2 with | .flush n => some (t.1, n) | _ => none)
-
-theorem mem_flushVals {ts : List (Nat × Task)} {i n : Nat} : (i, n) ∈ flushVals ts ↔ (i, Task.flush n) ∈ ts := by
-  simp only [flushVals, List.mem_filterMap]
-  constructor
-  · rintro ⟨⟨j, t⟩, hm, h⟩
-    cases t <;> simp at h
-    obtain ⟨rfl, rfl⟩ := h; exact hm
-  · intro hm; exact ⟨_, hm, rfl⟩
-
-theorem flushVals_append (a b : List (Nat × Task)) : flushVals (a ++ b) = flushVals a ++ flushVals b := by
-  simp [flushVals, List.filterMap_append]
-
-theorem flushVals_erase (id : Nat) (ts : List (Nat × Task)) :
-    flushVals (erase id ts) = (flushVals ts).filter (fun e => e.1 != id) := by
-  induction ts with
-  | nil => rfl
-  | cons x xs ih =>
-    obtain ⟨j, t⟩ := x
-    simp only [erase, List.filter_cons] at ih ⊢
-    by_cases hj : j = id
-    · subst hj
-      simp only [bne_self_eq_false, Bool.false_eq_true, ↓reduceIte]
-      rw [ih]
-      cases t <;> simp [flushVals, List.filterMap_cons]
-    · have : (j != id) = true := by simp [hj]
-      simp only [this, ↓reduceIte]
-      cases t <;> simp [flushVals, List.filterMap_cons, hj] <;> simpa [flushVals] using ih
-
-theorem flushVals_ids_sublist (ts : List (Nat × Task)) : ((flushVals ts).map (·.1)).Sublist (ts.map (·.1)) := by
-  induction ts with
-  | nil => simp [flushVals]
-  | cons y ys ih =>
-    obtain ⟨a, b⟩ := y
-    cases b with
-    | write k v rt => simpa [flushVals, List.filterMap_cons] using ih.cons a
-    | delete k => simpa [flushVals, List.filterMap_cons] using ih.cons a
-    | flush n => simpa [flushVals, List.filterMap_cons] using ih.cons_cons a
-
-structure FlushInv (s : St) : Prop where
-  ids : (s.tasks.map (·.1)).Pairwise (· < ·)
-  lt : ∀ e ∈ s.tasks, e.1 < s.nextId
-  last : match (flushVals s.tasks).getLast? with
-    | some (_, n) => n = s.payments
-    | none => s.hist = some s.payments
-
-/-- a step that appends tasks which are not flushes and leaves payments and the file alone -/
-theorem FlushInv.appendOther {s s' : St} (h : FlushInv s) (l : List (Nat × Task))
-    (ht : s'.tasks = s.tasks ++ l) (hl : flushVals l = [])
-    (hids : (s'.tasks.map (·.1)).Pairwise (· < ·)) (hlt : ∀ e ∈ s'.tasks, e.1 < s'.nextId)
-    (hp : s'.payments = s.payments) (hh : s'.hist = s.hist) : FlushInv s' := by
-  refine ⟨hids, hlt, ?_⟩
-  rw [ht, flushVals_append, hl, List.append_nil, hp, hh]
-  exact h.last
-
-theorem ids_append_delTasks {ts : List (Nat × Task)} {n : Nat} (h : (ts.map (·.1)).Pairwise (· < ·))
-    (hl : ∀ e ∈ ts, e.1 < n) (ks : List Nat) :
-    ((ts ++ delTasks n ks).map (·.1)).Pairwise (· < ·) ∧ ∀ e ∈ ts ++ delTasks n ks, e.1 < n + ks.length := by
-  induction ks generalizing ts n with
-  | nil => exact ⟨by simpa [delTasks] using h, by simpa [delTasks] using hl⟩
-  | cons k ks ih =>
-    have h1 := pairwise_lt_append_fresh (.delete k) h hl
-    have h2 : ∀ e ∈ ts ++ [(n, Task.delete k)], e.1 < n + 1 := by
-      intro e he
-      rcases List.mem_append.mp he with he | he
-      · exact Nat.lt_succ_of_lt (hl e he)
-      · simp only [List.mem_singleton] at he; subst he; exact Nat.lt_succ_self _
-    have := ih h1 h2
-    simp only [delTasks, List.length_cons]
-    have e : ts ++ (n, Task.delete k) :: delTasks (n + 1) ks = (ts ++ [(n, Task.delete k)]) ++ delTasks (n + 1) ks := by simp
-    rw [e]
-    refine ⟨this.1, fun x hx => ?_⟩
-    have := this.2 x hx
-    omega
-
-theorem flushVals_delTasks (n : Nat) (ks : List Nat) : flushVals (delTasks n ks) = [] := by
-  induction ks generalizing n with
-  | nil => rfl
-  | cons k ks ih => simp [delTasks, flushVals, List.filterMap_cons] ; simpa [flushVals] using ih (n + 1)
 
 theorem foldl_removeKey_nextId (dist : Nat → Nat) (ks : List Nat) (s : St) :
     (ks.foldl (removeKey dist) s).nextId = s.nextId + ks.length ∧ (ks.foldl (removeKey dist) s).payments = s.payments ∧
@@ -98,48 +17,64 @@ theorem foldl_removeKey_nextId (dist : Nat → Nat) (ks : List Nat) (s : St) :
     refine ⟨?_, b, c⟩
     rw [a]; simp [removeKey]; omega
 
+theorem delTasks_delete {n : Nat} {ks : List Nat} {e : Nat × Task} (h : e ∈ delTasks n ks) : ∃ k, e.2 = .delete k := by
+  induction ks generalizing n with
+  | nil => simp [delTasks] at h
+  | cons x xs ih =>
+    simp only [delTasks, List.mem_cons] at h
+    rcases h with rfl | h
+    · exact ⟨x, rfl⟩
+    · exact ih h
+
+/-- no metrics flush is pending and the metrics file holds the current payment count -/
+structure FlushInv (s : St) : Prop where
+  nonePending : ∀ i n, (i, Task.flush n) ∉ s.tasks
+  file : s.hist = some s.payments
+
+/-- a step after which every pending task was pending before or is no flush, and that leaves the count and the file alone -/
+theorem FlushInv.of_tasks {s s' : St} (h : FlushInv s)
+    (ht : ∀ e ∈ s'.tasks, e ∈ s.tasks ∨ ∀ n, e.2 ≠ .flush n)
+    (hp : s'.payments = s.payments) (hh : s'.hist = s.hist) : FlushInv s' := by
+  refine ⟨?_, by rw [hh, hp]; exact h.file⟩
+  intro i n hm
+  rcases ht _ hm with hm' | hm'
+  · exact h.nonePending i n hm'
+  · exact hm' n rfl
+
 theorem FlushInv.removeKeys (dist : Nat → Nat) {s : St} (h : FlushInv s) (ks : List Nat) :
     FlushInv (ks.foldl (removeKey dist) s) := by
-  obtain ⟨a, b, c⟩ := foldl_removeKey_nextId dist ks s
-  have hi := ids_append_delTasks h.ids h.lt ks
-  apply h.appendOther (delTasks s.nextId ks) (foldl_removeKey_tasks dist ks s) (flushVals_delTasks _ _)
-  · rw [foldl_removeKey_tasks]; exact hi.1
-  · rw [foldl_removeKey_tasks, a]; exact hi.2
-  · exact b
-  · exact c
+  obtain ⟨_, b, c⟩ := foldl_removeKey_nextId dist ks s
+  apply h.of_tasks _ b c
+  intro e he
+  rw [foldl_removeKey_tasks] at he
+  rcases List.mem_append.mp he with he | he
+  · exact .inl he
+  · obtain ⟨k, hk⟩ := delTasks_delete he
+    exact .inr (fun n => by rw [hk]; intro e'; cases e')
 
-/-- the flush task that runs is the oldest pending flush -/
-def FlushFifoStep (s : St) (op : Op) : Prop :=
-  ∀ id n, op = .run id → lookup id s.tasks = some (.flush n) → (flushVals s.tasks).head? = some (id, n)
-
-theorem FlushInv.step (cfg : Cfg) (dist : Nat → Nat) {s : St} (h : FlushInv s) (op : Op)
-    (hf : FlushFifoStep s op) : FlushInv (SafeNet.Store.step cfg dist s op).1 := by
+theorem FlushInv.step (cfg : Cfg) (dist : Nat → Nat) {s : St} (h : FlushInv s) (op : Op) :
+    FlushInv (SafeNet.Store.step cfg dist s op).1 := by
   cases op with
   | put k v rt =>
     simp only [SafeNet.Store.step]
     rcases putVerified_shape cfg dist s k v rt with ⟨_, hr⟩ | hr | hr | ⟨f, hr⟩
-    · rw [hr]; exact ⟨h.ids, h.lt, h.last⟩
-    · rw [hr]; exact ⟨h.ids, h.lt, h.last⟩
+    · rw [hr]; exact ⟨h.nonePending, h.file⟩
+    · rw [hr]; exact ⟨h.nonePending, h.file⟩
     · rw [hr]
-      have hi := ids_append_delTasks h.ids h.lt []
-      apply h.appendOther [(s.nextId, .write k v rt)] rfl rfl
-      · exact pairwise_lt_append_fresh _ h.ids h.lt
-      · intro e he
-        rcases List.mem_append.mp he with he | he
-        · exact Nat.lt_succ_of_lt (h.lt e he)
-        · simp only [List.mem_singleton] at he; subst he; exact Nat.lt_succ_self _
-      · rfl
-      · rfl
+      refine FlushInv.of_tasks h ?_ (by rfl) (by rfl)
+      intro e he
+      rcases List.mem_append.mp he with he | he
+      · exact .inl he
+      · simp only [List.mem_singleton] at he; subst he
+        exact .inr (fun n => by intro e'; cases e')
     · rw [hr]
       have h1 : FlushInv (removeKey dist s f) := h.removeKeys dist [f]
-      apply h1.appendOther [((removeKey dist s f).nextId, .write k v rt)] rfl rfl
-      · exact pairwise_lt_append_fresh _ h1.ids h1.lt
-      · intro e he
-        rcases List.mem_append.mp he with he | he
-        · exact Nat.lt_succ_of_lt (h1.lt e he)
-        · simp only [List.mem_singleton] at he; subst he; exact Nat.lt_succ_self _
-      · rfl
-      · rfl
+      refine FlushInv.of_tasks h1 ?_ (by rfl) (by rfl)
+      intro e he
+      rcases List.mem_append.mp he with he | he
+      · exact .inl he
+      · simp only [List.mem_singleton] at he; subst he
+        exact .inr (fun n => by intro e'; cases e')
   | remove k => exact h.removeKeys dist [k]
   | run id =>
     simp only [SafeNet.Store.step, runTask]
@@ -147,76 +82,20 @@ theorem FlushInv.step (cfg : Cfg) (dist : Nat → Nat) {s : St} (h : FlushInv s)
     · exact h
     · rename_i t ht
       split
-      · have hin := lookup_some_mem ht
-        have hids := pairwise_map_erase h.ids id
-        have hlt : ∀ e ∈ erase id s.tasks, e.1 < s.nextId := fun e he => h.lt e (mem_erase.mp he).1
-        -- flushes other than the task that ran keep their place
-        have hother : (∀ n', t ≠ .flush n') → flushVals (erase id s.tasks) = flushVals s.tasks := by
-          intro hne
-          rw [flushVals_erase, List.filter_eq_self]
-          intro e he
-          obtain ⟨j, m⟩ := e
-          simp only [bne_iff_ne, ne_eq]
-          intro (e' : j = id)
-          subst e'
-          exact hne m (pairwise_lt_unique h.ids hin (mem_flushVals.mp he))
+      · have hsub : ∀ e ∈ erase id s.tasks, e ∈ s.tasks ∨ ∀ n, e.2 ≠ Task.flush n := fun e he => .inl (mem_erase.mp he).1
         cases t with
-        | write k v rt =>
-          refine ⟨hids, hlt, ?_⟩
-          show match (flushVals (erase id s.tasks)).getLast? with | some (_, n) => n = s.payments | none => s.hist = some s.payments
-          rw [hother (fun n' => by intro e; cases e)]; exact h.last
-        | delete k =>
-          refine ⟨hids, hlt, ?_⟩
-          show match (flushVals (erase id s.tasks)).getLast? with | some (_, n) => n = s.payments | none => s.hist = some s.payments
-          rw [hother (fun n' => by intro e; cases e)]; exact h.last
-        | flush n =>
-          refine ⟨hids, hlt, ?_⟩
-          show match (flushVals (erase id s.tasks)).getLast? with | some (_, m) => m = s.payments | none => some n = some s.payments
-          have hhead := hf id n rfl ht
-          have hlast := h.last
-          cases hfv : flushVals s.tasks with
-          | nil => rw [hfv] at hhead; cases hhead
-          | cons x rest =>
-            rw [hfv] at hhead hlast
-            simp only [List.head?_cons, Option.some.injEq] at hhead
-            subst hhead
-            -- the other pending flushes have different ids
-            have hrest : (flushVals (erase id s.tasks)) = rest := by
-              rw [flushVals_erase, hfv]
-              simp only [List.filter_cons, bne_self_eq_false, Bool.false_eq_true, ↓reduceIte]
-              rw [List.filter_eq_self]
-              intro e he
-              obtain ⟨j, m⟩ := e
-              simp only [bne_iff_ne, ne_eq]
-              intro (e' : j = id)
-              subst e'
-              have h1 : (j, Task.flush m) ∈ s.tasks := mem_flushVals.mp (by rw [hfv]; exact List.mem_cons_of_mem _ he)
-              have := pairwise_lt_unique h.ids hin h1
-              cases this
-              -- the same entry twice in `flushVals`: impossible, ids strictly increase along the task list
-              have hsub : ((flushVals s.tasks).map (·.1)).Pairwise (· < ·) := h.ids.sublist (flushVals_ids_sublist _)
-              rw [hfv] at hsub
-              simp only [List.map_cons, List.pairwise_cons] at hsub
-              have := hsub.1 j (List.mem_map.mpr ⟨_, he, rfl⟩)
-              simp at this
-            rw [hrest]
-            cases rest with
-            | nil => simpa using hlast
-            | cons y ys =>
-              rw [List.getLast?_cons_cons] at hlast
-              have hz : (y :: ys).getLast? = some ((y :: ys).getLast (List.cons_ne_nil _ _)) :=
-                List.getLast?_eq_some_getLast (List.cons_ne_nil _ _)
-              rw [hz] at hlast ⊢
-              exact hlast
+        | write k v rt => exact h.of_tasks hsub rfl rfl
+        | delete k => exact h.of_tasks hsub rfl rfl
+        | flush n => exact absurd (lookup_some_mem ht) (h.nonePending id n)
       · exact h
   | deliver id =>
     simp only [SafeNet.Store.step, deliver]
     split
     · exact h
     · split
-      · exact ⟨h.ids, h.lt, h.last⟩
+      · exact ⟨h.nonePending, h.file⟩
       · exact h
-  | setRange r => exact ⟨h.ids, h.lt, h.last⟩
+  | setRange r => exact ⟨h.nonePending, h.file⟩
   | cleanup =>
     simp only [SafeNet.Store.step, cleanup]
     split
@@ -225,66 +104,35 @@ theorem FlushInv.step (cfg : Cfg) (dist : Nat → Nat) {s : St} (h : FlushInv s)
       · exact h
       · exact h.removeKeys dist _
   | payment =>
-    refine ⟨pairwise_lt_append_fresh _ h.ids h.lt, ?_, ?_⟩
-    · intro e he
-      rcases List.mem_append.mp he with he | he
-      · exact Nat.lt_succ_of_lt (h.lt e he)
-      · simp only [List.mem_singleton] at he; subst he; exact Nat.lt_succ_self _
-    · show match (flushVals (s.tasks ++ [(s.nextId, .flush (s.payments + 1))])).getLast? with
-        | some (_, n) => n = s.payments + 1 | none => s.hist = some (s.payments + 1)
-      rw [flushVals_append]
-      simp [flushVals]
+    simp only [SafeNet.Store.step, payment_eq]
+    exact ⟨h.nonePending, rfl⟩
   | crash torn =>
     simp only [SafeNet.Store.step]
     split
-    · refine ⟨by simp [restart], ?_, ?_⟩
-      · intro e he
-        simp only [restart, List.mem_singleton] at he
-        subst he
-        simp [restart]
-      · simp [restart, flushVals]
+    · refine ⟨?_, ?_⟩
+      · intro i n hm
+        rw [restart_tasks] at hm
+        cases hm
+      · rw [restart_hist]; rfl
     · exact h
 
-def FlushFifo (cfg : Cfg) (dist : Nat → Nat) : St → List Op → Prop
-  | _, [] => True
-  | s, op :: ops => FlushFifoStep s op ∧ FlushFifo cfg dist (step cfg dist s op).1 ops
-
-/-- executable check of `FlushFifo` (for examples) -/
-def flushFifoB (cfg : Cfg) (dist : Nat → Nat) : St → List Op → Bool
-  | _, [] => true
-  | s, op :: ops =>
-    (match op with
-      | .run id =>
-        match lookup id s.tasks with
-        | some (.flush n) => (flushVals s.tasks).head? == some (id, n)
-        | _ => true
-      | _ => true) && flushFifoB cfg dist (step cfg dist s op).1 ops
-
-theorem flushFifoB_sound (cfg : Cfg) (dist : Nat → Nat) (ops : List Op) (s : St) (h : flushFifoB cfg dist s ops = true) :
-    FlushFifo cfg dist s ops := by
-  induction ops generalizing s with
-  | nil => trivial
-  | cons op ops ih =>
-    simp only [flushFifoB, Bool.and_eq_true] at h
-    refine ⟨?_, ih _ h.2⟩
-    intro id n hop hl
-    subst hop
-    have h1 := h.1
-    simp only [hl, beq_iff_eq] at h1
-    exact h1
-
-theorem FlushInv.runFrom (cfg : Cfg) (dist : Nat → Nat) (ops : List Op) {s : St} (h : FlushInv s)
-    (hf : FlushFifo cfg dist s ops) : FlushInv (SafeNet.Store.runFrom cfg dist s ops) := by
+theorem FlushInv.runFrom (cfg : Cfg) (dist : Nat → Nat) (ops : List Op) {s : St} (h : FlushInv s) :
+    FlushInv (SafeNet.Store.runFrom cfg dist s ops) := by
   induction ops generalizing s with
   | nil => exact h
-  | cons op ops ih => exact ih (h.step cfg dist op hf.1) hf.2
+  | cons op ops ih => exact ih (h.step cfg dist op)
 
 theorem FlushInv.init (cfg : Cfg) (dist : Nat → Nat) : FlushInv (SafeNet.Store.init cfg dist) := by
-  refine ⟨by simp [SafeNet.Store.init, restart], ?_, ?_⟩
-  · intro e he
-    simp only [SafeNet.Store.init, restart, List.mem_singleton] at he
-    subst he
-    simp [SafeNet.Store.init, restart]
-  · simp [SafeNet.Store.init, restart, flushVals]
+  refine ⟨?_, ?_⟩
+  · intro i n hm
+    simp only [SafeNet.Store.init] at hm
+    rw [restart_tasks] at hm
+    cases hm
+  · simp only [SafeNet.Store.init]
+    rw [restart_hist]; rfl
+
+/-- after every history: no flush pending, the metrics file holds the payment count -/
+theorem FlushInv.run (cfg : Cfg) (dist : Nat → Nat) (ops : List Op) : FlushInv (SafeNet.Store.run cfg dist ops) :=
+  FlushInv.runFrom cfg dist ops (FlushInv.init cfg dist)
 
 end SafeNet.Store
